@@ -10,7 +10,7 @@ for P in "$@"; do
     python3 - $NAME <<'PY'
 import json,sys
 p='/verif/seeded/%s/meta.json'%sys.argv[1]
-m=json.load(open(p)); m["batch"]=14; json.dump(m,open(p,'w'),indent=1)
+m=json.load(open(p)); m["batch"]=15; json.dump(m,open(p,'w'),indent=1)
 PY
   done
 done
